@@ -1,0 +1,7 @@
+//go:build !verif
+
+package syntax
+
+// verifRewritesOff guards the verification switch that disables the semantics-preserving
+// rewrites; without the verif build tag it is constant false and compiles away.
+func verifRewritesOff() bool { return false }
